@@ -174,3 +174,8 @@ def run(ctx):
             for (fid, bi) in sites:
                 it.append(fid)
     rep.check(r5, set(it) <= {'layer_2::get_authorized_eth_addr'}, 'hash-iteration', 'hash-order iteration in: %s' % sorted(set(it)))
+
+    # R6: the discipline of the one shared table (same facts as C09; a flow's entry is created only by that flow's own
+    # validated data segment, is never removed or cleared, and nothing else touches the table)
+    from rules.c09 import table_discipline
+    table_discipline(ctx, 'C08')
